@@ -1,8 +1,101 @@
 import NauyacaVerif.Drv.Common
+import NauyacaVerif.Misc.TofuHist
 namespace NauyacaVerif.Drv.SessD
-open NauyacaVerif.Drv
+open NauyacaVerif.Drv Misc
 
-/-- line-protocol handler of this area; `none` = not one of ours -/
+/-! `tofu <on|off> <store> <op>*`   (C03, C11)
+
+    store  ::= `-` | `h.p=f,h.p=f,…`                 (host id, port, fingerprint id: decimal)
+    op     ::= `g:<hop>` | `u:<hop>` | `r:<hop>/<hop>/…`   get / upload / redirect chain
+             | `t:h.p=f` | `v:h.p` | `vh:h` | `c`          trust / revoke / revoke_by_hostname / clear
+             | `im:<s|u>:<store>` | `ir:<s|u>:<store>`     import merge / replace, conflicts skipped / updated
+    hop    ::= `h.p.<f|x>`                                 x = unreadable certificate
+    output ::= `ok <step>*`, step ::= `<rec,rec,…|->;<store'>`
+    rec    ::= `A:<n>` | `C<old>/<new>:<n>` | `R:<n>`      n = number of writes the peer received -/
+
+def parseKey (s : String) : Option Key :=
+  match s.splitOn "." with
+  | [h, p] => match h.toNat?, p.toNat? with
+    | some a, some b => some (a, b)
+    | _, _ => none
+  | _ => none
+
+def parseEntry (s : String) : Option (Key × Fp) :=
+  match s.splitOn "=" with
+  | [k, f] => match parseKey k, f.toNat? with
+    | some key, some fp => some (key, fp)
+    | _, _ => none
+  | _ => none
+
+def parseStore (s : String) : Option Pins :=
+  if s == "-" then some [] else (s.splitOn ",").mapM parseEntry
+
+def parseHop (chunks : List Nat) (s : String) : Option Hop :=
+  match s.splitOn "." with
+  | [h, p, c] =>
+    match h.toNat?, p.toNat? with
+    | some a, some b =>
+      if c == "x" then some ⟨(a, b), .unreadable, chunks, 20⟩
+      else match c.toNat? with
+        | some fp => some ⟨(a, b), .cert fp, chunks, 20⟩
+        | none => none
+    | _, _ => none
+  | _ => none
+
+def parseOp (s : String) : Option Op :=
+  match s.splitOn ":" with
+  | ["g", h] => (parseHop [1] h).map Op.fetch
+  | ["u", h] => (parseHop [1, 2] h).map Op.upload
+  | ["r", hs] => ((hs.splitOn "/").mapM (parseHop [1])).map Op.chain
+  | ["t", e] => (parseEntry e).map (fun x => Op.trust x.1 x.2)
+  | ["v", k] => (parseKey k).map Op.revoke
+  | ["vh", h] => h.toNat?.map Op.revokeHost
+  | ["c"] => some Op.clear
+  | ["im", m, st] => if m == "s" ∨ m == "u" then (parseStore st).map (Op.importToml false (m == "u")) else none
+  | ["ir", m, st] => if m == "s" ∨ m == "u" then (parseStore st).map (Op.importToml true (m == "u")) else none
+  | _ => none
+
+def insertSorted (e : Key × Fp) : List (Key × Fp) → List (Key × Fp)
+  | [] => [e]
+  | x :: xs => if e.1.1 < x.1.1 ∨ (e.1.1 = x.1.1 ∧ e.1.2 ≤ x.1.2) then e :: x :: xs else x :: insertSorted e xs
+
+def showStore (s : Pins) : String :=
+  if s.isEmpty then "-"
+  else ",".intercalate ((s.foldr insertSorted []).map (fun e => s!"{e.1.1}.{e.1.2}={e.2}"))
+
+def showRec (r : Rec) : String :=
+  let n := (peerReceived r.acts).length
+  match r.out with
+  | .accepted _ => s!"A:{n}"
+  | .changed a b => s!"C{a}/{b}:{n}"
+  | .refused => s!"R:{n}"
+
+def showStep (x : Pins × List Rec) : String :=
+  (if x.2.isEmpty then "-" else ",".intercalate (x.2.map showRec)) ++ ";" ++ showStore x.1
+
+/-- TOFU off: every hop is `connectOff` (accepted, store untouched); the other operations are direct
+    `TOFUDatabase` calls and behave as always -/
+def offRec (s : Pins) (h : Hop) : Rec :=
+  { before := s, k := h.k, p := h.p, out := (connectOff s h.k h.p h.payload h.response).2.1, after := s,
+    acts := (connectOff s h.k h.p h.payload h.response).2.2 }
+
+def stepOff (s : Pins) : Op → Pins × List Rec
+  | .fetch h => (s, [offRec s h])
+  | .upload h => (s, [offRec s h])
+  | .chain hs => (s, hs.map (offRec s))
+  | o => stepOp s o
+
+def runStepsOff (s : Pins) : List Op → List (Pins × List Rec)
+  | [] => []
+  | o :: os => stepOff s o :: runStepsOff (stepOff s o).1 os
+
 def handle : List String → Option String
+  | "tofu" :: mode :: store :: ops =>
+    match parseStore store, ops.mapM parseOp with
+    | some s, some os =>
+      if mode == "on" then some ("ok " ++ " ".intercalate ((runSteps s os).map showStep))
+      else if mode == "off" then some ("ok " ++ " ".intercalate ((runStepsOff s os).map showStep))
+      else some "bad-op"
+    | _, _ => some "bad-op"
   | _ => none
 end NauyacaVerif.Drv.SessD
